@@ -119,6 +119,91 @@ func c13Expected(outcomes []string, interval, timeout, late time.Duration, horiz
 func runC13(c *Ctx) {
 	c13Loop(c)
 	c13Reconnecting(c)
+	c13SlowPeerAndStaleAnswers(c)
+}
+
+// c13SilenceBound: how long after the broker went silent the client may take to give the connection
+// up: the ping timeout when the ignored packet was itself a PINGREQ, otherwise up to one interval more.
+func c13SilenceBound(r *rcRun, conn int, interval, timeout time.Duration) time.Duration {
+	for _, e := range r.net.Trace {
+		if e.Conn == conn && e.Pkt != nil && strings.Contains(e.Note, "goes silent from here") {
+			if e.Pkt.Type == env.PINGREQ {
+				return timeout
+			}
+			break
+		}
+	}
+	return interval + timeout
+}
+
+// c13SlowPeerAndStaleAnswers: (a) a peer that answers every ping late but within the configured
+// timeout (Timeout 10 s > PingInterval 3 s, answer after 5 s) is healthy and must be kept; (b) a
+// duplicated PINGRESP must not be taken for the answer to a later ping: when the peer then goes
+// silent, the silence must still be detected within interval+timeout.
+func c13SlowPeerAndStaleAnswers(c *Ctx) {
+	c.Bound("slow-peer", "ReconnectClient with PingInterval 3 s, Timeout 10 s against a broker answering PINGREQ after 5 s: no connection may be given up in 75 s")
+	{
+		var r *rcRun
+		sc := &vrt.Scenario{
+			Name: "C13/slow-peer/interval3s.timeout10s.answer5s",
+			Cfg:  vrt.Config{Horizon: int64(75 * time.Second)},
+			Body: func() {
+				rcExecuteInto(&rcCfg{KeepSession: true, PingInterval: 3 * time.Second, ConnTimeout: 10 * time.Second, PingDelay: 5 * time.Second}, &r)
+				if !r.connectOK {
+					vrt.Failf("harness", "connect failed: %v", r.connErr)
+					return
+				}
+				if len(r.net.Conns) != 1 || r.net.Conns[0].ClosedAt >= 0 {
+					vrt.Failf("c13/healthy-connection-closed", "a peer that answers every ping after 5 s (timeout 10 s) was given up\n%s", r.summary())
+				}
+				n := 0
+				for _, e := range r.net.Trace {
+					if e.Sent() && e.Pkt != nil && e.Pkt.Type == env.PINGREQ {
+						n++
+					}
+				}
+				if n < 8 {
+					vrt.Failf("c13/keepalive-stopped", "only %d PINGREQ in 75 s against a slow but healthy peer\n%s", n, r.summary())
+				}
+			},
+			Observe: func() uint64 { return r.net.TraceHash() },
+		}
+		c.Explore(sc)
+	}
+	c.Bound("stale-answers", "ReconnectClient (PingInterval 10 s, Timeout 3 s): the broker duplicates the PINGRESP of one ping and goes silent at a later packet (F<=2); the silent connection must be closed within interval+timeout")
+	{
+		interval, timeout := 10*time.Second, 3*time.Second
+		var r *rcRun
+		sc := &vrt.Scenario{
+			Name:  "C13/stale-answers/F2",
+			Bound: vrt.Budget{F: 2},
+			Cfg:   vrt.Config{Horizon: int64(75 * time.Second)},
+			Body: func() {
+				rcExecuteInto(&rcCfg{KeepSession: true, PingInterval: interval, ConnTimeout: timeout, Faults: env.FaultSet{GoSilent: true, DupAck: true, OnlyTypes: map[byte]bool{env.PINGREQ: true}}}, &r)
+				if !r.connectOK {
+					return
+				}
+				for _, cn := range r.net.Conns {
+					sAt := r.broker.SilentSince(cn.ID)
+					if sAt < 0 {
+						if cn.ClosedAt >= 0 {
+							vrt.Failf("c13/healthy-connection-closed", "connection %d was closed although the broker answered everything\n%s", cn.ID, r.summary())
+						}
+						continue
+					}
+					if cn.ClosedAt < 0 {
+						if sAt+int64(interval+timeout) < int64(70*time.Second) {
+							vrt.Failf("c13/silent-peer-not-detected", "connection %d went silent at %v and is still open at the horizon\n%s", cn.ID, time.Duration(sAt), r.summary())
+						}
+					} else if bound := c13SilenceBound(r, cn.ID, interval, timeout); cn.ClosedAt-sAt > int64(bound) {
+						vrt.Failf("c13/silent-peer-detected-late", "connection %d went silent at %v and was closed only at %v (allowed %v)\n%s", cn.ID, time.Duration(sAt), time.Duration(cn.ClosedAt), bound, r.summary())
+					}
+				}
+			},
+			Observe: func() uint64 { return r.net.TraceHash() },
+		}
+		c.Explore(sc)
+	}
 }
 
 func c13Loop(c *Ctx) {
@@ -335,8 +420,8 @@ func c13Reconnecting(c *Ctx) {
 						}
 						continue
 					}
-					if cn.ClosedAt-sAt > int64(interval+timeout) {
-						vrt.Failf("c13/silent-peer-detected-late", "connection %d went silent at %v and was closed only at %v (interval %v + timeout %v)\n%s", cn.ID, time.Duration(sAt), time.Duration(cn.ClosedAt), interval, timeout, r.summary())
+					if bound := c13SilenceBound(r, cn.ID, interval, timeout); cn.ClosedAt-sAt > int64(bound) {
+						vrt.Failf("c13/silent-peer-detected-late", "connection %d went silent at %v and was closed only at %v (allowed %v)\n%s", cn.ID, time.Duration(sAt), time.Duration(cn.ClosedAt), bound, r.summary())
 					}
 					if cn.ID == len(r.net.Conns)-1 && cn.ClosedAt+int64(12*time.Second) < int64(70*time.Second) {
 						vrt.Failf("c13/no-reconnect-after-timeout", "connection %d was closed after the ping timeout but no new connection was established\n%s", cn.ID, r.summary())
